@@ -729,35 +729,47 @@ func freezeObject(o Object, memo map[Object]Object) Object {
 		return frozen
 
 	case *ImmutableArray:
-		// Re-freeze elements in case they contain mutable values.
-		newElems := make([]Object, len(v.Value))
+		// Re-freeze elements in case they contain mutable values. The value
+		// may be part of a cycle (its storage can be shared with a mutable
+		// array), so it is memoised like the mutable containers.
+		if cached, ok := memo[o]; ok {
+			return cached
+		}
+		frozen := &ImmutableArray{Value: make([]Object, len(v.Value))}
+		memo[o] = frozen
 		changed := false
 		for i, elem := range v.Value {
 			f := freezeObject(elem, memo)
-			newElems[i] = f
+			frozen.Value[i] = f
 			if f != elem {
 				changed = true
 			}
 		}
 		if !changed {
+			memo[o] = o
 			return o
 		}
-		return &ImmutableArray{Value: newElems}
+		return frozen
 
 	case *ImmutableMap:
-		newMap := make(map[string]Object, len(v.Value))
+		if cached, ok := memo[o]; ok {
+			return cached
+		}
+		frozen := &ImmutableMap{Value: make(map[string]Object, len(v.Value))}
+		memo[o] = frozen
 		changed := false
 		for k, val := range v.Value {
 			f := freezeObject(val, memo)
-			newMap[k] = f
+			frozen.Value[k] = f
 			if f != val {
 				changed = true
 			}
 		}
 		if !changed {
+			memo[o] = o
 			return o
 		}
-		return &ImmutableMap{Value: newMap}
+		return frozen
 
 	default:
 		// Primitives, strings, bytes, time, functions, errors — return as-is.
